@@ -28,8 +28,10 @@ META = dict(
 )
 
 DEC = {'$': 2, 'EUR': 2, 'AAA': 0, 'CCC': 0}
+# incl. a top-level account named like a leaf (Cash, Food) and two accounts sharing a leaf name: the memo of the quick
+# matcher is keyed by the FULL name
 ACCTS = ['Assets:Bank', 'Assets:Cash', 'Expenses:Food', 'Expenses:Rent', 'Income:Job', 'Liabilities:Card',
-         'Expenses:Food:Out', 'Equity:Open']
+         'Expenses:Food:Out', 'Equity:Open', 'Cash', 'Food', 'Liabilities:Cash', 'Assets:Cash', 'Expenses:Food']
 RACCTS = ['Budget:Food', 'Tax:Fed', 'Expenses:Tax', 'Assets:Reserve', 'Liabilities:Tax', 'Expenses:Food:Tip',
           'Income:Auto', 'Assets:Cash:Float']
 APATS = ['Food', 'food', 'FOOD', 'Expenses', 'Cash', 'Assets', 'Rent', 'Tax', 'Out', 'Bank', 's:F', 'Budget', 'e', 'Job',
@@ -370,10 +372,12 @@ def gen_journal(rng, big=False):
     rules = [gen_rule(rng) for _ in range(nrules)]
     for r in rules:
         where = rng.random()
-        if where < 0.2:
+        if where < 0.3:
             pos = 0
-        elif where < 0.3:
+        elif where < 0.38:
             pos = len(items)
+        elif where < 0.7:
+            pos = rng.randrange(0, len(items) // 2 + 1)
         else:
             pos = rng.randrange(0, len(items) + 1)
         items.insert(pos, r)
@@ -505,10 +509,12 @@ def run_clean(ctx, res, name, items, with_rules):
 def expected_extension(rules_before, payee, base_rows):
     """the postings the property text requires after the rule-free rows, or None when a predicate's
     outcome is not determined by the text (a comparison across commodities).
-    -> list of (rule number, acct, kind, sym, value, must_balance)"""
+    -> list of (rule number, acct, kind, sym, value, must_balance, id of the matched posting x rule)"""
     out = []
+    gid = 0
     for rn, rule in rules_before:
         for row in base_rows:
+            gid += 1
             if row['generated']:
                 continue
             sym, val = row['amt'][0], row['amt'][1]
@@ -519,12 +525,12 @@ def expected_extension(rules_before, payee, base_rows):
                 continue
             for l in rule.lines:
                 if l.amt is None:
-                    return out + [(rn, 'NOAMOUNT', None, None, None, False)]
+                    return out + [(rn, 'NOAMOUNT', None, None, None, False, gid)]
                 if l.amt.sym is None:
                     s, v = sym, val * l.amt.value
                 else:
                     s, v = l.amt.sym, l.amt.value
-                out.append((rn, l.acct, l.kind.lower(), s, v, l.kind != 'V'))
+                out.append((rn, l.acct, l.kind.lower(), s, v, l.kind != 'V', gid))
     return out
 
 
@@ -534,10 +540,19 @@ def residual_after(base_rows, ext, upto_rule):
         if r['kind'] != 'v':
             c = r['cost']
             tot[c[0]] = tot.get(c[0], 0) + c[1]
-    for (rn, acct, kind, s, v, mb) in ext:
+    for (rn, acct, kind, s, v, mb, gid) in ext:
         if rn <= upto_rule and mb:
             tot[s] = tot.get(s, 0) + v
     return {k: v for k, v in tot.items() if v != 0}
+
+
+def groups_self_balancing(ext):
+    """do the must-balance postings made for each matched posting sum to zero on their own?"""
+    tot = {}
+    for (rn, acct, kind, s, v, mb, gid) in ext:
+        if mb:
+            tot[(gid, s)] = tot.get((gid, s), 0) + v
+    return all(v == 0 for v in tot.values())
 
 
 def oracle(res, items, text, rows, rejected, base_rows, base_rejected):
@@ -578,6 +593,9 @@ def oracle(res, items, text, rows, rejected, base_rows, base_rejected):
                                                case=case, observed='ERR NoAmount', required='accepted'))
             elif cls == 'Unbalanced':
                 # some prefix of the rules must leave a non-zero residual
+                if not noamt and has_cost and groups_self_balancing(ext):
+                    res.violations.append(dict(key='balanced-extension-rejected', desc='every matched posting received postings that balance among themselves, but the transaction (valid without rules) was rejected',
+                                               case=case, observed='ERR Unbalanced', required='accepted'))
                 if not noamt and not has_cost and all(not residual_after(base, ext, rn) for rn, _ in rules_seen):
                     res.violations.append(dict(key='balanced-extension-rejected', desc='the extended transaction balances exactly after every rule but was rejected',
                                                case=case, observed='ERR Unbalanced', required='accepted'))
@@ -600,7 +618,7 @@ def oracle(res, items, text, rows, rejected, base_rows, base_rejected):
             i += 1
             continue
         suffix = got[n:]
-        want = [(a, k, s, v) for (_, a, k, s, v, _) in ext]
+        want = [(a, k, s, v) for (_, a, k, s, v, _, _) in ext]
         have = [(r['acct'], r['kind'], r['amt'][0], r['amt'][1]) for r in suffix]
         # a zero amount has no visible commodity requirement
         norm = lambda l: [(a, k, (s if v != 0 else None), v) for (a, k, s, v) in l]
@@ -723,7 +741,7 @@ def run(ctx, n_override=None):
                 'teaching each commodity its decimals; rules before, between and after the transactions; non-trivial = at least one rule '
                 'precedes the transaction and the text requires at least one generated posting; distinct by transaction text + the '
                 'rules before it')
-    n = n_override or ctx.scale(400, 6000)
+    n = n_override or ctx.scale(1000, 6000)
     jobs = []
     for k, items in enumerate(fixed_journals()):
         jobs.append(items)
